@@ -46,7 +46,16 @@ func Sites() []Site {
 		return []Step{{Op: "With", Fields: c[:1]}, {Op: "With", Fields: c[1:]}}, nil, all(c, HasContextForm)
 	})
 	add("updatecontext", func(c []Field) ([]Step, []Field, bool) {
-		return []Step{{Op: "UpdateContext", Fields: c}}, []Field{post}, all(c, HasContextForm)
+		// only field-adding calls: what UpdateContext does with Timestamp()/Caller()/Stack()/Ctx() made inside
+		// the callback (it keeps the context bytes only) is not covered by any statement
+		fieldsOnly := func(f Field) bool {
+			switch f.M {
+			case "Timestamp", "Caller", "Stack", "Ctx":
+				return false
+			}
+			return HasContextForm(f)
+		}
+		return []Step{{Op: "UpdateContext", Fields: c}}, []Field{post}, all(c, fieldsOnly)
 	})
 	add("hook", func(c []Field) ([]Step, []Field, bool) {
 		return []Step{{Op: "HookChain", Fields: c}}, []Field{pre}, true
